@@ -37,7 +37,9 @@ def run(ctx):
         exported = exported[:300]
     cases = []
     for impl, cores in (("basic", 1), ("basic", 3), ("compact", 2)):
-        for c in exported:
+        # a compact build costs ~3 s of CPU whatever its size
+        subset = exported if impl == "basic" else exported[:ctx.pick(40, 576)]
+        for c in subset:
             k = dict(c)
             k.update({"id": len(cases), "impl": impl, "cores": cores, "keys": keys, "ids": ids, "queries": qs,
                       "sections": ["lookup", "each", "search", "problems", "refs", "rels", "areas", "validity"]})
